@@ -37,8 +37,10 @@ static void gen_knobs(bool quick) {
     static const int pm[] = { 0, 0, 10000, 1000, 100, 30 };
     K.preempt_mean = pm[sim_rndn(6)];
     K.sched_policy = sim_rndn(4) == 0; K.pct_depth = 1 + (int)sim_rndn(3);
-    static const int caps[] = { 65536, 65536, 8192, 1024, 256 };
-    K.sock_cap = caps[sim_rndn(5)]; K.pipe_cap = caps[sim_rndn(5)];
+    /* capacities stay within what Linux can be configured to: >= one page for pipes, >= ~2 KiB for AF_UNIX buffers */
+    static const int caps[] = { 65536, 65536, 16384, 4096 };
+    static const int scaps[] = { 65536, 65536, 8192, 2304 };
+    K.sock_cap = scaps[sim_rndn(4)]; K.pipe_cap = caps[sim_rndn(4)];
     K.short_read_pm = sim_rndn(2) ? (int)sim_rndn(400) : 0;
     K.short_write_pm = sim_rndn(4) == 0 ? (int)sim_rndn(300) : 0;
     K.eintr_pm = sim_rndn(4) == 0 ? (int)sim_rndn(100) : 0;
